@@ -300,6 +300,138 @@ def replay_thread_bidding(c):
     return bool(bad), f'seat {N[pv]}, {N[av]} to call: ' + '; '.join(bad)
 
 
+def replay_assembly_direct(c):
+    """the REAL Server.run (and the real JsonLogWriter) driven with the results the solver chose for the auction and the play of
+    every board: deal / bidding_phase / playing_phase return those values, the network and the seat threads are inert fakes.
+    The log must hold, per board, the contract, declarer and tricks that were returned and +-calc_score by declarer's side."""
+    import json
+    import os
+    import pathlib
+    import tempfile
+    from bridge_env import Bid, Contract, Hands, Pair, Player, Vul
+    from bridge_env.data_handler.abstract_classes import BoardSetting
+    from bridge_env.network_bridge import server as sm
+    from bridge_env.playing_phase import PlayingHistory
+    from bridge_env.score import calc_score
+    specs = c['boards']
+    random_state = __import__('random').getstate()
+    __import__('random').seed(7)
+    deals = [Hands.generate_random_hands() for _ in specs]
+    __import__('random').setstate(random_state)
+    if c.get('shared'):
+        deals = [deals[0]] * len(specs)
+    boards = [BoardSetting(hands=deals[i], dealer=Player(sp['dealer']), vul=Vul(sp['vul']), board_id=f'r{i}') for i, sp in enumerate(specs)]
+    originals = [{p: set(d[p]) for p in Player} for d in deals]
+    seats = iter([Player.N, Player.E, Player.S, Player.W])
+
+    class FakeThread:
+        PROTOCOL_VERSION = sm.PlayerThread.PROTOCOL_VERSION
+
+        def __init__(self, *a, **k):
+            self.team_names, self.event_thread = k.get('team_names'), k.get('event_thread')
+
+        def start(self):
+            p = next(seats)
+            self.team_names[p] = 'NS' if p.pair is Pair.NS else 'EW'
+            self.event_thread.set()
+
+        def is_alive(self):
+            return True
+
+        def join(self, timeout=None):
+            pass
+
+    class FakeBarrier:
+        def __init__(self, *a, **k):
+            pass
+
+        def wait(self, timeout=None):
+            return 0
+
+    class FakeSock:
+        def bind(self, a): pass
+        def listen(self, n=0): pass
+        def accept(self): return object(), None
+        def close(self): pass
+    state = dict(board=0)
+    contracts = []
+
+    def deal(self, *a, **k):
+        state['board'] += 1
+
+    def bidding(self, dealer, vul):
+        sp = specs[state['board'] - 1]
+        if sp['passed_out']:
+            con = Contract(None, vul=vul)
+        else:
+            con = Contract(Bid(sp['bid']), x=sp['x'] or sp['xx'], xx=sp['xx'], vul=vul, declarer=Player(sp['declarer']))
+        contracts.append(con)
+        return con, [Bid.Pass] * 4
+
+    def playing(self, contract, cards):
+        for p in Player:
+            cards[p].clear()            # the play consumes the hands it is given
+        return PlayingHistory(contract), specs[state['board'] - 1]['tricks']
+    path = os.path.join(tempfile.mkdtemp(prefix='verif_asm_'), 'out.json')
+    saved = {n: getattr(sm, n) for n in ('PlayerThread', 'Barrier')}
+    saved_m = {n: getattr(sm.Server, n) for n in ('deal', 'bidding_phase', 'playing_phase')}
+    saved_sleep = sm.time.sleep
+    bad = []
+    try:
+        sm.PlayerThread, sm.Barrier = FakeThread, FakeBarrier
+        sm.Server.deal, sm.Server.bidding_phase, sm.Server.playing_phase = deal, bidding, playing
+        sm.time.sleep = lambda s: None
+        srv = sm.Server('localhost', 2000, pathlib.Path(path), boards)
+        try:
+            srv._socket.close()
+        except Exception:
+            pass
+        srv._socket = FakeSock()
+        try:
+            srv.run()
+        except Exception as e:
+            if c.get('outcome') != 'raise':
+                raise            # the solver's path did not raise: a raise here is a gap of the fakes, not a finding (exit 3)
+            bad.append(f'Server.run raised {e!r}')
+    finally:
+        sm.PlayerThread, sm.Barrier = saved['PlayerThread'], saved['Barrier']
+        for n, v in saved_m.items():
+            setattr(sm.Server, n, v)
+        sm.time.sleep = saved_sleep
+    try:
+        logs = json.load(open(path))['logs']
+    except Exception as e:
+        return True, f'the log is not a JSON document: {e!r}; ' + '; '.join(bad)
+    finally:
+        try:
+            os.remove(path)
+            os.rmdir(os.path.dirname(path))
+        except OSError:
+            pass
+    if len(logs) != len(specs):
+        bad.append(f'{len(logs)} records for {len(specs)} boards')
+    for i, (lg, sp, con) in enumerate(zip(logs, specs, contracts)):
+        if lg.get('board_id') != f'r{i}' or lg.get('dealer') != str(Player(sp['dealer'])):
+            bad.append(f'board {i}: id/dealer {lg.get("board_id")!r}/{lg.get("dealer")!r}')
+        from bridge_env.data_handler.json_handler.writer import convert_deal
+        want_deal = convert_deal(Hands(*[set(originals[i][p]) for p in (Player.N, Player.E, Player.S, Player.W)]))
+        if lg.get('deal') != want_deal:
+            bad.append(f'board {i}: the deal written is not the complete original deal')
+        if sp['passed_out']:
+            if lg.get('play_history') is not None or lg.get('taken_trick') is not None or lg.get('scores') != {'NS': 0, 'EW': 0} \
+                    or lg.get('declarer') is not None:
+                bad.append(f'board {i} (passed out): play {lg.get("play_history")}, tricks {lg.get("taken_trick")}, scores {lg.get("scores")}')
+            continue
+        s = calc_score(con, sp['tricks'])
+        side = 'NS' if Player(sp['declarer']).pair is Pair.NS else 'EW'
+        want = {side: s, ('EW' if side == 'NS' else 'NS'): -s}
+        if lg.get('scores') != want:
+            bad.append(f'board {i}: {con.str_info()} with {sp["tricks"]} tricks: scores {lg.get("scores")}, the rules give {want}')
+        if lg.get('taken_trick') != sp['tricks'] or lg.get('declarer') != str(Player(sp['declarer'])) or lg.get('contract') != str(con):
+            bad.append(f'board {i}: contract/declarer/tricks written {lg.get("contract")!r}/{lg.get("declarer")!r}/{lg.get("taken_trick")!r}')
+    return bool(bad), 'real Server.run driven with the chosen board results: ' + '; '.join(bad[:3])
+
+
 def replay(c):
     k = c.get('kind')
     if k == 'thread_playing':
@@ -318,6 +450,10 @@ def replay(c):
         mine = [m for t, m in bad if any(p in t for p in c.get('props', ['C08', 'C10']))]
         return bool(mine), f'session {c["session"]}: ' + '; '.join(mine[:3])
     if k == 'assembly':
+        if c.get('boards'):
+            hit, msg = replay_assembly_direct(c)
+            if hit:
+                return hit, msg
         # the assembly of the log is replayed on the real server with bundled clients: sessions with a passed-out board after a
         # played one, several boards, doubled contracts
         from harness import transcripts
